@@ -59,7 +59,7 @@ def run(ctx: Ctx):
                             maxev=ctx.rng.choice([6, 12, 20]))
         ctx.evaluations += 1
         if ctl.errors:
-            ctx.violation("harness|" + ctl.errors[0].split()[0], f"random run {i}: {ctl.errors}", {"trace": dd.clean_trace(ctl.trace)})
+            ctx.violation(dc.err_key(ctl.errors), f"random run {i}: {ctl.errors}", {"trace": dd.clean_trace(ctl.trace)})
             continue
         groups.setdefault((end_t, warm_t, "pause"), []).append((dd.clean_trace(ctl.trace), f"random run {i} {conc}"))
         if i == 0:
